@@ -17,12 +17,16 @@ REPLACEMENTS = [
     VALID_KEY.upper(), VALID_SIG, [], [1], [VALID_KEY], {}, {"a": 1}, {"signatures": {}, "signed": {}},
     "2020-01-01T00:00:00Z", "root", "key_mgr", {"pubkeys": [], "threshold": 1}, {"signature": VALID_SIG}, 10 ** 30,
     "1", [[]], {"": {}}, 1e300, -0.0,
+    # length-preserving type confusion: containers whose len() equals a grammar length
+    ["a"] * 40, ["a"] * 64, ["a"] * 128, {"k%02d" % i: 0 for i in range(40)}, {"k%02d" % i: 0 for i in range(64)},
+    10 ** 400, -(10 ** 400), 2 ** 63, 1e22, 2.5e-300,
 ]
 
 STR_EDITS = ["drop_last", "append0", "append_space", "prepend_space", "upper", "append_nl", "fullwidth_last", "append_nul",
              "double", "empty", "drop_first", "swapcase_first_letter"]
 TIME_EDITS = ["month13", "day32", "hour25", "min60", "noZ", "offset", "space_for_T", "lower", "feb30", "short_year",
-              "fraction", "date_only", "trailing_junk", "sec60", "year0", "unpadded"]
+              "fraction", "date_only", "trailing_junk", "sec60", "year0", "unpadded", "underscore_for_T", "newline_for_T", "week_date",
+              "dot_seconds", "offset_before_Z", "ordinal_date", "comma_fraction"]
 INT_EDITS = ["minus1", "plus1", "zero", "neg", "as_float", "as_str", "as_true", "plus_half", "huge", "as_list"]
 LIST_EDITS = ["empty", "dup_first", "append_junk", "append_upper_first", "reverse", "drop_last", "append_none",
               "dup_first_variant", "nest"]
@@ -73,7 +77,10 @@ def _edit(node, op):
         return {"month13": f(mo="13"), "day32": f(d="32"), "hour25": f(h="25"), "min60": f(mi="60"), "noZ": f(Z=""),
                 "offset": f(Z="+00:00"), "space_for_T": f(T=" "), "lower": f(T="t", Z="z"), "feb30": f(mo="02", d="30"),
                 "short_year": node[1:], "fraction": f(s=s + ".5"), "date_only": node[:10], "trailing_junk": node + "x",
-                "sec60": f(s="60"), "year0": f(y="0000"), "unpadded": "%d-%d-%dT%d:%d:%dZ" % tuple(
+                "sec60": f(s="60"), "year0": f(y="0000"), "underscore_for_T": f(T="_"), "newline_for_T": f(T="\n"),
+                "week_date": "%s-W28-2T%s:%s:%sZ" % (y, h, mi, s), "dot_seconds": "%s-%s-%sT%s:%s.%sZ" % (y, mo, d, h, mi, s),
+                "offset_before_Z": "%s-%s-%sT%s+01:00Z" % (y, mo, d, h), "ordinal_date": "%s-%s%sT%s:%s:%sZZ"[:0] + "%s-194T%s:%s:%s.0Z" % (y, h, mi, s),
+                "comma_fraction": "%s-%s-%sT%s:%s:%s,5Z"[:0] + "%s-%s-%sT%s:%s,%sZ" % (y, mo, d, h, mi, s), "unpadded": "%d-%d-%dT%d:%d:%dZ" % tuple(
                     int(x) for x in (y, mo, d, h, mi, s))}.get(e)
     if kind == "int" and type(node) is int:
         return {"minus1": node - 1, "plus1": node + 1, "zero": 0, "neg": -node, "as_float": float(node) if abs(node) < 2 ** 53 else None,
